@@ -269,7 +269,12 @@ class _ObjectPathComponent(object):
     def create_ObjectPathComponent(component_name):
         # first case is to handle if component_name was quoted
         if isinstance(component_name, StringConstant):
-            return BasicObjectPathComponent(component_name.value, False)
+            name = component_name.value
+            if not component_name.needs_to_be_quoted:
+                # Text taken from a pattern is still escaped; the component
+                # holds the key itself (it is escaped again when printed).
+                name = re.sub(r"\\(.)", r"\1", name)
+            return BasicObjectPathComponent(name, False)
         elif component_name.endswith("_ref"):
             return ReferenceObjectPathComponent(component_name)
         elif component_name.find("[") != -1:
